@@ -426,6 +426,9 @@ class Interp:
         """callee text at a call site -> Function or None"""
         c = callee.strip()
         self_ty, trait = None, None
+        if re.match(r'^(core|std|alloc|stdcode|tmelcrypt|novasmt|bytes|num|rayon|imbl|hex|log|serde|bincode|ethnum|'
+                    r'catvec|melpow|tap|parking_lot|once_cell|blake3|genawaiter|dashmap|smallvec)::', c):
+            return None
         if c.startswith('<'):
             k = mp.match_close(c, 0)
             inner = c[1:k]
@@ -441,10 +444,14 @@ class Interp:
             method = segs[-1]
             if len(segs) >= 2:
                 prev = segs[-2]
-                self_ty = base_ident(prev)
-                if self_ty and not (self_ty[0].isupper() or self_ty.startswith('[')):
-                    # previous segment is a module or a function (closures)
-                    self_ty = None
+                mi = re.match(r'^<impl (.*)>$', prev)
+                if mi:
+                    self_ty = base_ident(mi.group(1))
+                else:
+                    self_ty = base_ident(prev)
+                    if self_ty and not (self_ty[0].isupper() or self_ty.startswith('[')):
+                        # previous segment is a module or a function (closures)
+                        self_ty = None
         method = re.sub(r'::<.*$', '', method)
         cands = self.by_last.get(method, [])
         if '{closure#' in method:
@@ -459,17 +466,13 @@ class Interp:
                 m2 = [f for f in m if f.trait == trait or (f.trait == 'derive')]
                 if m2:
                     m = m2
-            if m:
-                cands = m
-            else:
-                # inherent/free fn whose impl type is unknown: accept only defs without an impl self
-                cands = [f for f in cands if f.self_ty is None]
-                if cands and len(segs) >= 2 and self_ty:
-                    return None if len(cands) != 1 else None
+            if not m:
+                return None
+            cands = m
         else:
-            free = [f for f in cands if f.self_ty is None]
-            if free:
-                cands = free
+            cands = [f for f in cands if '<impl at' not in f.name]
+            if not cands:
+                return None
         if len(cands) == 1:
             return cands[0]
         if len(cands) > 1:
@@ -477,7 +480,7 @@ class Interp:
             same = [f for f in cands if cur_fn is not None and f.crate == cur_fn.crate]
             if len(same) == 1:
                 return same[0]
-            raise Unsupported('ambiguous callee %s -> %s' % (callee, [f.name for f in cands]))
+            raise Unsupported('ambiguous callee %s -> %s' % (callee, [f.name[-80:] for f in cands][:6]))
         return None
 
     # ---- solver -------------------------------------------------------------
@@ -680,10 +683,10 @@ class Interp:
         if t == '()':
             return UNIT
         if t.startswith('"'):
-            return Opaque('str', _unescape_str(t))
+            return Ptr(st.alloc(Opaque('str', _unescape_str(t))))
         if t.startswith('b"'):
             bs = _unescape_bytes(t[1:])
-            return Agg('bytes', [bv(b, 8) for b in bs])
+            return Ptr(st.alloc(Agg('bytes', [bv(b, 8) for b in bs])))
         if t.startswith("'"):
             s = _unescape_str('"' + t[1:-1] + '"')
             return bv(ord(s), 32)
